@@ -12,7 +12,7 @@
 (*     data object the hashes of .df, .disqualification, .warnings, and    *)
 (*     for every caller-owned frame its hash.                              *)
 (* Every clause below is evaluated by TLC; a step that fails a clause is   *)
-(* printed as <<"REJECT", trace, step, {clauses}>> and ends that trace.    *)
+(* printed as <<"REJECT", trace, step, {clauses}>>; validation continues.    *)
 (* `interp` (abstract value -> first hash seen, with provenance) is kept   *)
 (* for the whole batch: "same abstract value => same bytes" across slots,  *)
 (* histories, reloads, observed-variants and processes.                    *)
@@ -160,17 +160,17 @@ Init == tid = 1 /\ i = 1 /\ model = EmptyFn /\ data = EmptyFn /\ store = EmptyFn
 
 NextTrace == /\ tid' = tid + 1 /\ i' = 1 /\ model' = EmptyFn /\ data' = EmptyFn /\ store' = EmptyFn /\ prev' = EmptyProj
 
+\* A step that fails a clause is reported and validation of the history goes on with the abstract state the P-layer
+\* prescribes (so that a later step is still judged, e.g. the gate after a call that wrongly edited the model).
 Next ==
   /\ tid <= Len(Traces)
   /\ IF i > Len(Traces[tid])
      THEN NextTrace /\ UNCHANGED <<interp, nrej>>
      ELSE LET r == Step(Ev)
               f == Failing(r)
-          IN IF f = {}
-             THEN /\ model' = r.model /\ data' = r.data /\ store' = r.store /\ interp' = r.interp
-                  /\ prev' = Ev.proj /\ i' = i + 1 /\ tid' = tid /\ nrej' = nrej
-             ELSE /\ PrintT(<<"REJECT", Ev.tid, i, f>>)
-                  /\ NextTrace /\ interp' = interp /\ nrej' = nrej + 1
+          IN /\ (f # {} => PrintT(<<"REJECT", Ev.tid, i, f>>))
+             /\ model' = r.model /\ data' = r.data /\ store' = r.store /\ interp' = r.interp
+             /\ prev' = Ev.proj /\ i' = i + 1 /\ tid' = tid /\ nrej' = IF f = {} THEN nrej ELSE nrej + 1
   /\ (tid' = Len(Traces) + 1 => PrintT(<<"DONE", Len(Traces), nrej'>>))
 Spec == Init /\ [][Next]_vars
 =============================================================================
